@@ -25,6 +25,8 @@ func lockList(m map[string]bool) string {
 }
 
 func runC11(p *Prog, r *Report) {
+	publishOrder(p, r, "C11.11/publish-order", func(rel string) bool { return strings.HasPrefix(rel, "protocol/") || strings.HasPrefix(rel, "transport") || rel == "internal/core" })
+	r.Floor("C11.11/publish-order", "publish_closes.C11.11/publish-order", 5)
 	r.Describe("C11.1/E3", "every post-publication access of a lock-disciplined field holds its inferred guard")
 	e3 := p.E3()
 	nGuarded, nAcc := 0, 0
